@@ -39,6 +39,8 @@ func runC15(c *Ctx) {
 	nativeSliceCopies(c, "R7", []string{"consensus"})
 	freshWriteBatches(c, "R4", []string{"consensus"})
 	readOptionsSeeDeletions(c, "R2")
+	storeLogAlwaysWrites(c, "R4")
+	walNeverDisabled(c, "R4")
 	logT, ok1 := consensusTableConst(p, "logTable")
 	stableT, ok2 := consensusTableConst(p, "stableTable")
 	if !ok1 || !ok2 {
